@@ -6,7 +6,7 @@
   A message is identified by a natural number (the 4-byte tag the harness puts in the body).
 -/
 import NngModel.Base.Bytes
-import NngModel.Generated.Consts
+import NngModel.Generated.C18
 
 namespace Nng.QSpec
 
